@@ -45,6 +45,28 @@ func digestOf(v interface{}, err error) string {
 
 func execGrowth(vec J, out *Writer) {
 	switch vec["k"].(string) {
+	case "srcfault":
+		// a source that fails once with a transient error after `at` bytes and then goes on: is the error reported?
+		doc := []byte(S(vec["doc"]))
+		at := I(vec["at"])
+		reported, n := false, 0
+		rd, err := control.NewParagraphReader(&faultySource{data: doc[:at], after: doc[at:]}, nil)
+		if err != nil {
+			reported = true
+		} else {
+			for i := 0; i < 100; i++ {
+				_, err := rd.Next()
+				if err == io.EOF {
+					break
+				}
+				if err != nil {
+					reported = true
+					break
+				}
+				n++
+			}
+		}
+		out.Put(J{"ev": "srcfault", "in": vec, "reported": reported, "paras": n})
 	case "clheader":
 		doc := S(vec["line"]) + "\n\n  * x\n\n -- A <a@b.c>  Mon, 02 Jan 2006 15:04:05 -0700\n"
 		e, err := changelog.ParseOne(bufio.NewReader(strings.NewReader(doc)))
